@@ -41,12 +41,17 @@ LEVEL_TEXT = (
     "style/kaldi_shift, symmetric reflection), frame length exactly L; the segment walk (incl. the mirrored, conjugated "
     "pass) pairs tap j with full-spectrum bin (start+j) mod D for every D, start, len, with a proved fuel bound; real "
     "banks stay in the half spectrum and doubling equals the full-spectrum sum; default frame length leaves a bin inside "
-    "each support. Model tied to the code by exact-integer tracers through the public API; coefficient values on "
-    "library banks checked against an independent full-spectrum oracle."
+    "each support. The real-valued tail of _compute_frame (per-segment |.|^p sums, val += ..., real-bank doubling, log "
+    "floor, the energy coefficient) is regenerated from compute.py on every run and proved to be the documented formula: "
+    "stft_coefficient_spec - for every DFT size, support, real frame, bank taps and every way the walk is cut into "
+    "segments the stored coefficient is logFloor((2 if real) * sum over the FULL spectrum of |X[b]*H[b]|^p) with X the "
+    "documented DFT (Hermitian symmetry of a real frame's DFT proved, not assumed). Model tied to the code by "
+    "exact-integer tracers through the public API; coefficient values on library banks checked against an independent "
+    "full-spectrum oracle."
 )
 LEVEL_NOTE = (
-    "Trusted: rfft = the documented DFT (Hermitian symmetry is proved), np.pad symmetric, tracer banks. Partial: log/energy formulas, window "
-    "values and float round-off are oracle-tested only; real_doubling assumes zero DC/Nyquist taps."
+    "Trusted: rfft = the documented DFT (Hermitian symmetry is proved), np.pad symmetric, tracer banks. the framecoeff translator. Partial: window "
+    "values and float round-off are oracle-tested only; real_doubling assumes zero DC/Nyquist taps (library banks: bounded by the oracle)."
 )
 TECHNIQUE = "Lean 4 proofs (walk = spec by induction with fuel; framing closed form) + exact-integer tracer correspondence"
 
